@@ -112,7 +112,8 @@ fn nb_cli_sign_hash_pairing() {
     let mut cases = 0u64;
     for (sel, path) in [(vec![], "m/44'/60'/0'/0/0"), (vec!["--account-index", "5"], "m/44'/60'/0'/0/5"), (vec!["--hd-path", "m/7'/8"], "m/7'/8")] {
         let pk = format!("0x{}", hex::encode(key(GANACHE, "", path).public().encode_uncompressed()));
-        let with = |a: &[&str]| -> Vec<String> { a.iter().map(|s| s.to_string()).chain(["--mnemonic".to_string(), GANACHE.to_string()]).chain(sel.iter().map(|s| s.to_string())).collect() };
+        // account options belong to the `sign` command and precede its subcommand
+        let with = |a: &[&str]| -> Vec<String> { [a[0].to_string(), "--mnemonic".to_string(), GANACHE.to_string()].into_iter().chain(sel.iter().map(|s| s.to_string())).chain(a[1..].iter().map(|s| s.to_string())).collect() };
         let sign = |a: &[&str], stdin: &[u8]| {
             let v = with(a);
             ok(&v.iter().map(String::as_str).collect::<Vec<_>>(), &[], Some(stdin))
@@ -188,7 +189,7 @@ fn nb_cli_malformed_inputs_are_ordinary_errors() {
         cases += 1;
     }
     for d in ["", "0x", "0x00", "zz", &"00".repeat(33)] {
-        ordinary_error(&["sign", "raw", "--mnemonic", GANACHE, d], &[], None);
+        ordinary_error(&["sign", "--mnemonic", GANACHE, "raw", d], &[], None);
         cases += 1;
     }
     let tx = |field: &str, v: &str| LEGACY.replacen(&format!("\"{field}\":"), &format!("\"{field}\":{v},\"_x\":"), 1);
@@ -197,7 +198,7 @@ fn nb_cli_malformed_inputs_are_ordinary_errors() {
                        ("chainId", "\"0x8000000000000000000000000000000000000000000000000000000000000000\""),
                        ("chainId", "\"0xffffffffffffffffffffffffffffffffffffffffffffffffffffffffffffffff\""),
                        ("chainId", "-1"), ("data", "\"00\""), ("data", "\"0x0\""), ("data", "\"0xzz\""), ("to", "\"0x00\""), ("gas", "null"), ("gas", "[]")] {
-        ordinary_error(&["sign", "transaction", "--mnemonic", GANACHE, "-"], &[], Some(tx(field, v).as_bytes()));
+        ordinary_error(&["sign", "--mnemonic", GANACHE, "transaction", "-"], &[], Some(tx(field, v).as_bytes()));
         ordinary_error(&["hash", "transaction", "-"], &[], Some(tx(field, v).as_bytes()));
         cases += 2;
     }
@@ -215,7 +216,7 @@ fn nb_cli_malformed_inputs_are_ordinary_errors() {
                     ("N", "{}"), ("bool", "1"), ("address", "\"0x00\""), ("string", "1"), ("bytes", "\"zz\""), ("uint8[]", "{}"), (&deep_ty, "1"), ("uint8[", "1"), ("uint8]", "1"), ("[]", "[]"), ("", "1"),
                     ("uint8[18446744073709551616]", "[]"), ("bytes33", "\"0x00\""), ("uint7", "1"), ("int264", "1")] {
         ordinary_error(&["hash", "typeddata", "-"], &[], Some(typed(ty, v).as_bytes()));
-        ordinary_error(&["sign", "typeddata", "--mnemonic", GANACHE, "-"], &[], Some(typed(ty, v).as_bytes()));
+        ordinary_error(&["sign", "--mnemonic", GANACHE, "typeddata", "-"], &[], Some(typed(ty, v).as_bytes()));
         cases += 2;
     }
     for h in ["0", "0x0", "zz", "0x0g", "0 1 2"] {
